@@ -322,7 +322,108 @@ func (c *Ctx) checkWorkerAccumulations(r *fnRef) {
 		})
 		return true
 	})
+	if n == 0 {
+		c.checkWorkerAccumulationsSSA(r, decl, info, file)
+	}
 	L.Floor("order-free-accumulation", 2, "uncompute, max")
+}
+
+// checkWorkerAccumulationsSSA: the same classification on the SSA of the worker closures (through
+// the inlined view when the worker body has been moved into a helper that receives the shared
+// variables by pointer): every store of a worker to a cell shared with the parent is the error
+// result, an append to a slice that is consumed order-free after the join, or a guarded maximum.
+func (c *Ctx) checkWorkerAccumulationsSSA(r *fnRef, decl *ast.FuncDecl, info *types.Info, file *ast.File) {
+	L := c.L
+	F := r.F
+	clos, bind := closuresOf(F)
+	objByName := func(name string) types.Object {
+		var o types.Object
+		ast.Inspect(decl, func(n ast.Node) bool {
+			if id, ok := n.(*ast.Ident); ok && id.Name == name {
+				if d := info.Defs[id]; d != nil && o == nil {
+					o = d
+				}
+			}
+			return true
+		})
+		return o
+	}
+	for _, ci := range clos {
+		if ci.via == nil || !ci.loop {
+			continue
+		}
+		g := ci.fn
+		bf := computeBranchFacts(g)
+		lc := newLinCtx(c, g)
+		allInstrs(g, func(in ssa.Instruction) {
+			st, ok := in.(*ssa.Store)
+			if !ok {
+				return
+			}
+			fv, ok := st.Addr.(*ssa.FreeVar)
+			if !ok {
+				return
+			}
+			cell := bind[fv]
+			if cell == nil {
+				return
+			}
+			name := "worker store to " + fv.Name()
+			pos := c.P.Pos(st.Pos())
+			elem := fv.Type().Underlying().(*types.Pointer).Elem()
+			switch {
+			case isErrorT(elem):
+				L.OK("order-free-accumulation", r.label, name, pos, "error result: any failing pair makes the call fail")
+			case func() bool {
+				call, ok := st.Val.(*ssa.Call)
+				if !ok || builtinName(call.Common()) != "append" {
+					return false
+				}
+				ld, ok := call.Common().Args[0].(*ssa.UnOp)
+				return ok && ld.X == ssa.Value(fv)
+			}():
+				coll := objByName(fv.Name())
+				if coll == nil {
+					L.Unknown("order-free-accumulation", r.label, name, pos, "cannot find the declaration of the shared slice to inspect its consumers")
+					return
+				}
+				if ok, why := c.collectionConsumedOrderFree(info, file, decl, coll); ok {
+					L.OK("order-free-accumulation", r.label, name, pos, why)
+				} else {
+					L.Bad("order-free-accumulation", r.label, name, pos, why)
+				}
+			default:
+				// guarded maximum: the store is reached only when `value > *cell` is known true
+				same := func(a, b ssa.Value) bool { return a == b || sameOperand(a, b) || lc.canon(a) == lc.canon(b) }
+				guarded := false
+				allInstrs(g, func(in2 ssa.Instruction) {
+					bo, ok := in2.(*ssa.BinOp)
+					if !ok {
+						return
+					}
+					isLoad := func(v ssa.Value) bool {
+						u, ok := v.(*ssa.UnOp)
+						return ok && u.Op == token.MUL && u.X == ssa.Value(fv)
+					}
+					var gd bool
+					switch bo.Op {
+					case token.GTR, token.GEQ:
+						gd = same(bo.X, st.Val) && isLoad(bo.Y)
+					case token.LSS, token.LEQ:
+						gd = same(bo.Y, st.Val) && isLoad(bo.X)
+					}
+					if gd && bf.knownAt(st.Block(), bo, true) {
+						guarded = true
+					}
+				})
+				if guarded {
+					L.OK("order-free-accumulation", r.label, name, pos, "guarded maximum `if x > m { m = x }`: exact and commutative")
+				} else {
+					L.Bad("order-free-accumulation", r.label, name, pos, "a worker updates shared state in a way that depends on the order in which pairs are processed")
+				}
+			}
+		})
+	}
 }
 
 // guardedMaxSSA: the store at the given position assigns x to a shared cell m and is reached only
